@@ -1,6 +1,7 @@
 import GBProofs.Props.C17
 import GBProofs.Definiteness
 import GBProofs.EriIntegral
+import GBProofs.ArrayDefiniteness
 /-!
 # C17 — definiteness of the four families of arrays, for the model's blocks themselves
 
@@ -24,4 +25,14 @@ alias point_charge_block_nsd := pointCharge_nsd
 alias eri_block_psd := eriBlock_psd
 alias eri_block_self_nonneg := eriBlock_self_nonneg
 alias eri_block_schwarz := eriBlock_schwarz
+end GB.C17
+
+/-! `ArrayDefiniteness.lean`: the statements for the **assembled arrays** of a whole basis (Cartesian and spherical shells,
+after `norm_cont` and the spherical transformation): every assembled two-index array is `C · raw · Cᵀ` (`entry2_eq_TMT`), hence
+`overlap_array_psd`, `overlap_array_symm`, **`overlap_array_abs_le_one`** (all elements at most 1 in magnitude, from the unit
+diagonal), `kinetic_array_psd`, `pointCharge_array_nsd` (q ≥ 0) and their versions under the user's `transform=`
+(`quadForm_congr`, `psd_congr`: any rectangular `T M Tᵀ`); entries as integrals of the array's own basis functions
+(`overlap_entry_eq_integral`, `kinetic_entry_eq_gradient`, `pointCharge_entry_eq_integral`). -/
+namespace GB.C17
+alias overlap_array_elements_at_most_one := overlap_array_abs_le_one
 end GB.C17
